@@ -3,6 +3,8 @@
 package flowcontrol
 
 import (
+	"reflect"
+
 	"github.com/refraction-networking/uquic/internal/protocol"
 	"github.com/refraction-networking/uquic/internal/qerr"
 )
@@ -29,14 +31,30 @@ func VerifFlowCtlConsts() [][2]any {
 	}
 }
 
+// verifBase reads the counters by NAME through reflection, so that a refactoring of the struct
+// (a renamed or removed field) does not break the harness build: a missing field reads as
+// verifMissing and shows up as a correspondence mismatch instead. Slot VLastBlockedAt is NOT
+// read at all (always 0): how a controller de-duplicates its "blocked" reports is an
+// implementation detail; what is observed is the BEHAVIOUR, the sequence of IsNewlyBlocked
+// results (every flowctl case ends with a probe of all controllers).
+const verifMissing = int64(-1) << 61
+
 func verifBase(c *baseFlowController) [10]int64 {
 	c.mutex.Lock()
 	defer c.mutex.Unlock()
+	v := reflect.ValueOf(c).Elem()
+	get := func(name string) int64 {
+		f := v.FieldByName(name)
+		if !f.IsValid() || !f.CanInt() {
+			return verifMissing
+		}
+		return f.Int()
+	}
 	return [10]int64{
-		int64(c.bytesSent), int64(c.sendWindow), int64(c.lastBlockedAt),
-		int64(c.bytesRead), int64(c.highestReceived), int64(c.receiveWindow),
-		int64(c.receiveWindowSize), int64(c.maxReceiveWindowSize),
-		int64(c.epochStartTime), int64(c.epochStartOffset),
+		get("bytesSent"), get("sendWindow"), 0,
+		get("bytesRead"), get("highestReceived"), get("receiveWindow"),
+		get("receiveWindowSize"), get("maxReceiveWindowSize"),
+		get("epochStartTime"), get("epochStartOffset"),
 	}
 }
 
@@ -58,7 +76,11 @@ const (
 // receivedFinalOffset flag (observation only).
 func VerifStreamState(fc StreamFlowController) ([10]int64, bool) {
 	c := fc.(*streamFlowController)
-	return verifBase(&c.baseFlowController), c.receivedFinalOffset
+	fin := false
+	if f := reflect.ValueOf(c).Elem().FieldByName("receivedFinalOffset"); f.IsValid() && f.Kind() == reflect.Bool {
+		fin = f.Bool()
+	}
+	return verifBase(&c.baseFlowController), fin
 }
 
 // VerifConnState reads the ten counters of the connection flow controller.
